@@ -276,7 +276,7 @@ theorem polyline_sim : ∀ (pts : List (Point K)) (rest : List (PathEl K)) (l : 
       obtain ⟨outs1, s₁, h1, hon1, hd1, hn1, hph1, hin1, hcp1, hdraw1⟩ := seg_sim l L f s o1 ph1 hpat hon hc
       -- the step that finishes the segment and loads the next one
       have hst : (s₁.state == .ToStash && s₁.stash.isEmpty) = false := by rw [hon1.working]; rfl
-      have hstep := step_line_end s₁ l hon1.seg hst hn1
+      have hstep := step_line_end_working s₁ l hon1.seg hst (by rw [hon1.working]; decide) hn1
       have hlast : s₁.last_pt = s.last_pt := by rw [hon1.last, hon.last]
       rw [get_input_lineTo ({ s₁ with dash_remaining := s₁.dash_remaining - s₁.seg_remaining } : DashIt K) q
         (pts.map .LineTo ++ rest) (hcp1.1.trans hcp)
